@@ -2560,7 +2560,20 @@ class ResetIndex(Elemwise):
                         return
                     return type(self)(self.frame, True, self.name)
                 return
-            result = plain_column_projection(self, parent, dependents)
+            additional_columns = None
+            index = self.frame._meta.index
+            if (
+                not self.drop
+                and index.nlevels == 1
+                and index.name is None
+                and "index" in self.frame.columns
+            ):
+                # the column made from the index is called "level_0" only as
+                # long as the frame has a column "index"
+                additional_columns = ["index"]
+            result = plain_column_projection(
+                self, parent, dependents, additional_columns
+            )
             if result is not None and set(result.columns) != set(result.frame.columns):
                 result = result.substitute_parameters({"drop": True})
             return result
